@@ -832,7 +832,7 @@ func rShrink(safe core.RunFunc, v core.Violation) core.Violation {
 		}
 		o := safe(h)
 		for _, x := range o.Violations {
-			if rFamily(x.Fingerprint) == fam {
+			if rFamily(x.Fingerprint) == fam || rHasClass(x.Fingerprint, fam) {
 				lastHit = x
 				return true
 			}
@@ -879,13 +879,33 @@ func rFamily(fp string) string {
 			}
 			names = append(names, c)
 		}
+		// a case that shows several classes at once shrinks towards the (alphabetically) first of them:
+		// the others have simpler cases of their own
 		sort.Strings(names)
-		return strings.Join(p[:3], "/") + "/" + strings.Join(dedupe(names), "+")
+		return strings.Join(p[:3], "/") + "/" + names[0]
 	}
 	if len(p) >= 3 {
 		return strings.Join(p[:3], "/")
 	}
 	return fp
+}
+
+// rHasClass: fp is a tally mismatch that shows (among others) the class the family fam is about.
+func rHasClass(fp, fam string) bool {
+	p := strings.Split(fp, "/")
+	f := strings.Split(fam, "/")
+	if len(p) < 4 || len(f) != 4 || p[2] != "tally-mismatch" || f[2] != "tally-mismatch" {
+		return false
+	}
+	for _, c := range strings.Split(p[3], "+") {
+		if k := strings.Index(c, "("); k > 0 {
+			c = c[:k]
+		}
+		if c == f[3] {
+			return true
+		}
+	}
+	return false
 }
 
 // rSmaller lists the histories one step smaller than h (h[0] is the scenario).
